@@ -22,6 +22,7 @@
 #define VERIF_CONSMODELS_H_
 
 #include "models.h"
+#include <functional>
 #include <string>
 #include <vector>
 
@@ -441,11 +442,14 @@ inline bool projectState(mb::Model& M, State& s, Real tol, bool doQ, bool doU, s
     return true;
 }
 // *ok (if given) is false when a projected state was requested and projection failed (the unprojected state is returned).
-inline State makeState(mb::Model& M, int stateId, int valueSet, bool* ok = nullptr, std::string* err = nullptr) {
+// `prepare` (optional) is applied to the Model-stage state before any projection, e.g. to disable some constraints.
+inline State makeState(mb::Model& M, int stateId, int valueSet, bool* ok = nullptr, std::string* err = nullptr,
+                       const std::function<void(State&)>& prepare = nullptr) {
     static const int kind[NSTATE] = {0, 1, 2, 3, 1, 1};
     static const Real time[NSTATE] = {0, 0, 0.7, 0.7, 0.3, 0.3};
     State s = mb::makeState(M, kind[stateId], valueSet);
     s.setTime(time[stateId]);
+    if (prepare) prepare(s);
     bool good = true;
     if (stateId == 4) good = projectState(M, s, 1e-10, true, true, err);
     else if (stateId == 5) good = projectState(M, s, 1e-10, true, false, err);
